@@ -22,12 +22,12 @@ def run(ctx, selftest=False):
     from .. import jk
     jk.load()
     quick = ctx.tier == "quick"
-    ctx.rule = ("cases = structural points without offsets TLC enumerates (N<=3, poly_trend 1..3, K prior kinds, means, jitter, e) with "
+    ctx.rule = ("cases = structural points TLC enumerates (with and without survey offsets) (N<=3, poly_trend 1..3, K prior kinds, means, jitter, e) with "
                 "seeded lattice values and random unit assignments; distinct = distinct configurations; trivial = N=1 and poly_trend=1")
     ctx.assumptions = ["TLC/SANY", "twobody KeplerOrbit.radial_velocity as the independent orbit path", "numpy for Gaussian densities of "
                        "certified matrices"]
     ctx.model_check("GaussMC", "MC_Gauss.cfg", coverage=True)
-    S = [s for s in c01.structs(ctx, quick) if s["noff"] == 0]
+    S = c01.structs(ctx, quick)     # with and without survey offsets (a row's curve at the epochs of survey k includes its dv0_k)
     rnd = random.Random(ctx.seed * 30011 + 4)
     cases = c01.make_cases(ctx, S, rnd, len(S), FAM, units_fn=gd.random_units)
     if not quick:
